@@ -75,6 +75,9 @@ func realMain(argv []string) int {
 		for _, l := range c.Log.Lines {
 			fmt.Println(l)
 		}
+		if res.Viol != nil {
+			fmt.Printf("VIOLSIG %s\nVIOLMSG %s\n", res.Viol.Sig, res.Viol.Msg)
+		}
 		fmt.Printf("hash=%s steps=%d viol=%v trouble=%q stats=%v\n", res.Hash, res.Steps, res.Viol, res.Trouble, res.Stats)
 	case "worker":
 		// worker <prop> <tier> <seed> <shard> <nshards> [list]
